@@ -38,7 +38,7 @@ def run(ctx):
             for w in ("é", "你", "𝄞", "\U0010FFFD"):
                 for sp in range(1, len(w.encode()) ):
                     strad.append([m - 9 - sp, w])
-        cases.append(dict(id=i, lit=v["lit"], val=v["val"], reps=[0, 1 + (i + ctx.seed) % 10] if quick else [0, 1, 2, 3, 7, 10], e2e=e2e, pads=pads, strad=strad))
+        cases.append(dict(id=i, lit=v["lit"], val=v["val"], reps=[0, 1 + (i + ctx.seed) % 10, 11 + (i * 7 + ctx.seed) % 90] if quick else [0, 1, 2, 3, 7, 10, 11 + (i * 7 + ctx.seed) % 90, 11 + (i * 13 + 5 * ctx.seed) % 90, 11 + (i * 29 + 3) % 90], e2e=e2e, pads=pads, strad=strad))
     res = common.run_harness(ctx, znh, "strlit", cases, timeout=3000)
     nrt = ndec = nsoft = 0
     for r in res:
